@@ -101,8 +101,12 @@ def c2s(ctx, nstreams, ntexts, ncorpus):
         cases.append(nc.gen_stream(rng))
     for _ in range(ntexts):
         t = nc.gen_text(rng, max_chars=2500)
-        nd = NoteData(t)
-        cases.append(([nc.proj_note(x) for x in nd], nd.columns))
+        try:
+            nd = NoteData(t)
+            cases.append(([nc.proj_note(x) for x in nd], nd.columns))
+        except Exception as e:  # noqa  (reading well-formed note data failed: nothing can be re-encoded)
+            ctx.violation("C08:source-note-data-unreadable:" + type(e).__name__,
+                          "well-formed note data could not be read (%r), so it cannot be rebuilt: %r" % (e, t[:300]), {"mode": "text", "text": t})
     wins = []
     for label, t in nc.corpus_charts():
         for w in nc.windows(t, 8):
